@@ -152,7 +152,7 @@ def classify_and_run(rep, drv, rnd, d: Path, nodes, flag, want_blocker, stats, m
     real_accepted, insp, msg = (False, None, "unknown processor") if unknown_proc else c02.real_inspect(nodes)
     # ---- context supply: run space + --context ---------------------------------------------------------
     n_runs = rnd.randrange(1, 4)
-    rs_keys = [k for k in required if rnd.random() < 0.5]
+    rs_keys = list(required) if force.get("all_keys_in_rs") else [k for k in required if rnd.random() < 0.5]
     cli_keys = [k for k in required if k not in rs_keys]
     bad_at = rnd.randrange(n_runs) if any(n["processor"] == "TFailIf" for n in nodes) and rnd.random() < 0.6 else None
     ctxmap = {k: [("/dev/null" if k == "path" else f"rs_{k}_{j}") for j in range(n_runs)] for k in rs_keys}
@@ -220,7 +220,7 @@ def classify_and_run(rep, drv, rnd, d: Path, nodes, flag, want_blocker, stats, m
     flag_args = FLAG_ARGS[flag]
     if flag == "rsDryRun" and rs is not None:
         # the same request spelled in the file, or as an override of the file
-        r = 0.9 if force.get("flag_via") == "cli" else rnd.random()
+        r = {"cli": 0.9, "yaml": 0.1, "set": 0.4}.get(force.get("flag_via"), rnd.random())
         if r < 0.25:
             rs["dry_run"] = True
             flag_args = []
@@ -345,6 +345,10 @@ def run(tier: str) -> int:
             ([{"processor": "TSourceDef"}, {"processor": "TOp0"}, dict(snk)], "dryRun", ("none_", None)),
             ([{"processor": "TSourceDef"}, {"processor": "TOp0"}, dict(snk)], "rsDryRun", ("none_", None)),
             ([{"processor": "TSourceDef"}, {"processor": "TOp0"}, dict(snk)], "none_", ("none_", None)),
+            # the same blockers / flags given as configuration overrides
+            ([{"processor": "TSource"}, dict(snk)], "none_", ("capExceeded", None, {"cap_via": "set", "all_keys_in_rs": True})),
+            ([{"processor": "TSource"}, dict(snk)], "rsDryRun", ("none_", None, {"flag_via": "set", "all_keys_in_rs": True})),
+            ([{"processor": "TSource"}, dict(snk)], "rsDryRun", ("none_", None, {"flag_via": "yaml", "all_keys_in_rs": True})),
             # an IO component with a keyword-only required parameter: it is required like any other
             ([{"processor": "TSourceDef"}, {"processor": "TSinkKw", "parameters": {"path": sink}}, dict(snk)], "none_", ("missingKey", None)),
             ([{"processor": "TSourceDef"}, {"processor": "TSinkKw", "parameters": {"path": sink}}], "dryRun", ("missingKey", None)),
